@@ -42,10 +42,15 @@ def rw_case(draw, big=False):
     nk = {"str": "str", "word": "rw_word", "kw": "rw_kw"}[kind]
     if big:
         spec = draw(gen.bn_spec(min_nodes=6, max_nodes=6, name_kinds=(nk,), state_kinds=("str", "range", "offset"), min_card=4, max_card=4, max_parents=5, max_cells=10**7, cap_cards=False, col_kinds=("dense", "tiny", "zeros")))
+    elif draw(st.integers(0, 5)) == 0:
+        # cardinalities on both sides of 10 (formats that order or index variables by a textual cardinality)
+        spec = draw(gen.bn_spec(min_nodes=2, max_nodes=3, name_kinds=(nk,), state_kinds=("str", "range", "offset"), max_parents=1, card_pool=[2, 3, 10, 11, 12, 9],
+                                col_kinds=("dense", "dense", "zeros", "tiny")))
+        spec["wide_cards"] = True
     else:
         spec = draw(gen.bn_spec(min_nodes=1, max_nodes=6, name_kinds=(nk,), state_kinds=("str", "str", "range", "offset", "perm"), max_parents=4, col_kinds=("dense", "dense", "zeros", "onehot", "uniform", "tiny", "tiny")))
     spec["name_kind"] = kind
-    if kind == "kw" and draw(st.booleans()):
+    if kind == "kw" and draw(st.booleans()) and max(spec["card"]) <= len(KW_STATES):
         # state names that contain / end with format keywords as well
         spec["states"] = [[KW_STATES[(i + j) % len(KW_STATES)] for j in range(k)] for i, k in enumerate(spec["card"])]
         spec["explicit_states"] = True
@@ -134,6 +139,8 @@ def check_rw(case, out, n_jobs=1):
     nodes = [str(v) for v in spec["nodes"]]
     idx = {v: i for i, v in enumerate(spec["nodes"])}
     out.cls(f"fmt_{fmt}", f"via_{via}", f"names_{spec['name_kind']}")
+    if max(spec["card"]) >= 10 and min(spec["card"]) < 10:
+        out.cls("cardinalities_on_both_sides_of_10")
     if spec.get("kw_states"):
         out.cls("keyword_state_names")
     par = {c["var"]: c["parents"] for c in spec["cpds"]}
